@@ -7,7 +7,7 @@ P=$SRC/$ID/patch$N.diff; D=$SRC/$ID/demo$N
 [ -f "$P" ] || exit 0
 cd $WT && git checkout -q -- . && git clean -fdq
 DEMO=$(mktemp -d /tmp/demo_XXXX); cp -r $D/. $DEMO/ 2>/dev/null
-if [ -f $DEMO/go.mod ]; then sed -i "s#/tmp/wt2\?/[A-Za-z0-9_]*#$WT#g" $DEMO/go.mod; fi
+grep -rlE "/tmp/wt[0-9]*/[A-Za-z0-9_]+" $DEMO 2>/dev/null | xargs -r sed -i -E "s#/tmp/wt[0-9]*/(C[0-9]+|verify[0-9]|R[0-9]+|[A-Za-z0-9_]+)#$WT#g"
 run_demo() { (cd $DEMO && timeout 600 go test -count=1 ./... >$DEMO/out.txt 2>&1; echo $?); }
 base=$(run_demo)
 applies=true; git apply "$P" 2>/dev/null || applies=false
